@@ -361,6 +361,9 @@ type Pool struct {
 	init bool
 }
 
+// maxParked bounds the number of objects parked per pool.
+const maxParked = 48
+
 type freeObj struct {
 	x      interface{}
 	op     int
@@ -506,7 +509,15 @@ func (p *Pool) Put(x interface{}) {
 		fo.poison = true
 	}
 	atomic.StoreInt32(fo.edge, 1)
-	s.free = append(s.free, fo)
+	if len(s.free) >= maxParked {
+		// bounded like a real pool (which drops objects at GC): forget the oldest parked object
+		for j := 0; j+1 < len(s.free); j++ {
+			s.free[j] = s.free[j+1]
+		}
+		s.free[len(s.free)-1] = fo
+	} else {
+		s.free = append(s.free, fo)
+	}
 	if w.Events != nil {
 		w.Events("Put(" + p.Name + ")")
 	}
